@@ -114,13 +114,15 @@ def rho_class(info, settings):
 
 
 def run(kind, prob, x0, settings, precond="exact", script=None, bounds=None, precond_point=None, tid=0,
-        convex_ref=None):
+        convex_ref=None, prob_old=None, warm=False, upd=True):
     """kind: 'tr' (EquationSolver.trust_region_minimize) or 'spg' (bound-constrained).  Returns trace dict."""
     import jax.numpy as np
     from optimism import EquationSolver, TrustRegionSPG
     n = prob["n"]
     real = get_objective(n, "identity" if precond == "identity" else "exact")
-    real.p = make_params(prob)
+    p_target = make_params(prob)
+    # kind 'nes' (nonlinear_equation_solve): the objective still carries the parameters of the previous load step
+    real.p = make_params(prob_old) if (kind == "nes" and prob_old is not None) else p_target
     x0 = np.array(x0, dtype=float)
     with Silence():
         real.update_precond(np.array(precond_point, dtype=float) if (precond == "stale" and precond_point is not None) else x0)
@@ -149,7 +151,7 @@ def run(kind, prob, x0, settings, precond="exact", script=None, bounds=None, pre
         return "ulp" if worst <= 4 * EPS else "gross"
 
     def measure(x):
-        g = real.gradient(x)
+        g = real.grad_x(x, p_target)          # always under the parameters the solve was asked for
         if bounds is None:
             return g
         return TrustRegionSPG.project(x - g, np.array(bounds)) - x
@@ -163,6 +165,9 @@ def run(kind, prob, x0, settings, precond="exact", script=None, bounds=None, pre
         try:
             if kind == "tr":
                 xr, flag = EquationSolver.trust_region_minimize(proxy, x0, settings, callback=cb)
+            elif kind == "nes":
+                xr, flag = EquationSolver.nonlinear_equation_solve(proxy, x0, p_target, settings, callback=cb,
+                                                                   useWarmStart=warm, updatePrecond=upd)
             elif kind == "sub":
                 from optimism import EquationSolverSubspace
                 xr = EquationSolverSubspace.trust_region_subspace_minimize(proxy, x0, settings, callback=cb)
@@ -182,6 +187,10 @@ def run(kind, prob, x0, settings, precond="exact", script=None, bounds=None, pre
     tol = settings.tol
     ev = [dict(e="Start", fin=bool(onp.all(onp.isfinite(onp.asarray(x0)))), feas=feas(x0))]
     prev_k, prev_v = _key(x0), val(_key(x0), x0)
+    for item in proxy._log:                     # the solver's own start point (after an optional warm start)
+        if item[0] == "start_value":
+            prev_k, prev_v = item[1], float(proxy._memo[item[1]])
+            break
     last_k = prev_k
     gcur = float(np.linalg.norm(measure(x0)))
     for item in proxy._log:
@@ -190,7 +199,7 @@ def run(kind, prob, x0, settings, precond="exact", script=None, bounds=None, pre
             my = measure(np.array(info["x"]))
             myn = float(np.linalg.norm(my))
             gxc = float(np.linalg.norm(measure(np.array(info["xc"]))))
-            conv = bool((my @ my) < tol ** 2) if kind in ("tr", "sub") else bool(myn < tol)
+            conv = bool((my @ my) < tol ** 2) if kind in ("tr", "sub", "nes") else bool(myn < tol)
             ev.append(dict(e="Trial", rho=rho_class(info, settings), resNW=bool(myn <= gxc), conv=conv,
                            code=info["code"] or ""))
         elif item[0] == "update_precond":
